@@ -4,4 +4,4 @@ From Coq Require Import Extraction ExtrOcamlBasic.
 From Pi2 Require Import ML.Syntax ML.Subst Lib.Term Gen.PropLib.
 Extraction Language OCaml.
 Extraction "lib_model.ml" pat_eqb dispatch static_conc uses_only trace psize conc term_of
-  tautology_axioms propositional_axioms n_entry_points match_single.
+  tautology_axioms propositional_axioms all_class_axioms n_entry_points match_single.
